@@ -80,6 +80,10 @@ pub fn run(prop: &'static str, tier: &str) -> i32 {
     }
     if quick {
         plan.push((Proto::V4L, 10, 0, Some(5)));
+        // the other frozen clocks (exp crossing midnight / the year, leap day) on the small model
+        for ci in 1..clks.len() {
+            plan.push((Proto::V4L, 3, ci, None));
+        }
     } else {
         plan.push((Proto::V4L, 10, 0, None));
         for ci in 1..clks.len() {
@@ -149,7 +153,121 @@ pub fn run(prop: &'static str, tier: &str) -> i32 {
     all.merge(seq);
     // C17's own quantifier alphabet (one value per key) is a sub-alphabet of the above
 
-    all.executions = REPLAYS.load(Ordering::Relaxed);
+    // ---- free-running pass (real clock, real RNG, hooks idle): the production path of the default claims
+    if prop == "C13" {
+        let accs = par_units(&Proto::ALL.to_vec(), |p| {
+            let mut acc = Acc::default();
+            crate::adapter::set_clock(None);
+            let key = crate::domains::key_pool(*p)[0].clone();
+            for round in 0..if matches!(p, Proto::V1P | Proto::V3P) { 3 } else { 40 } {
+                let before = time::OffsetDateTime::now_utc().unix_timestamp_nanos();
+                let ops = vec![crate::adapter::BOp::Build, crate::adapter::BOp::Build];
+                let ev = crate::adapter::build_history(*p, crate::adapter::Layer::Prelude, &key.sk, &ops);
+                let after = time::OffsetDateTime::now_utc().unix_timestamp_nanos();
+                for e in &ev {
+                    let crate::adapter::BEvent::Built(crate::adapter::Out::Ok(tok)) = e else {
+                        acc.violate(format!("C13|{}|free-running|build-failed", p.name()), format!("PasetoBuilder::default().build failed under the real clock: {:?}", e), json!({"builder_case": BuilderCase { proto: *p, t0_ns: "real".into(), path: vec![Op::Build] }}));
+                        continue;
+                    };
+                    acc.executions += 1;
+                    let payload = match crate::adapter::core_present(*p, &key.pk, tok, None, None) {
+                        crate::adapter::Out::Ok(s) => s,
+                        _ => continue,
+                    };
+                    let Ok(v) = serde_json::from_str::<Value>(&payload) else { continue };
+                    let inst = |k: &str| v[k].as_str().and_then(crate::rfc3339::parse).map(|(_, t)| t);
+                    let (iat, nbf, exp) = (inst("iat"), inst("nbf"), inst("exp"));
+                    let in_window = |t: Option<i128>| t.map_or(false, |t| t >= before && t <= after);
+                    let ok = in_window(iat) && nbf == iat && exp.zip(iat).map_or(false, |(e, i)| e - i == 3600 * 1_000_000_000);
+                    if ok {
+                        acc.controls_ok += 1;
+                        acc.bump("free-running:conforms");
+                    } else {
+                        acc.violate(
+                            format!("C13|{}|free-running|default-claims-not-creation-time", p.name()),
+                            format!("real clock, round {}: builder created between {} and {} ns, token carries iat {:?} nbf {:?} exp {:?} (expected iat = nbf = creation instant, exp = iat + 1 h)", round, before, after, v["iat"], v["nbf"], v["exp"]),
+                            json!({"builder_case": BuilderCase { proto: *p, t0_ns: "real".into(), path: vec![Op::Build] }}),
+                        );
+                    }
+                }
+            }
+            crate::adapter::freeze_default_clock();
+            acc
+        });
+        all.merge(Acc::merge_all(accs));
+    }
+    // ---- an application-defined claim type (impl PasetoClaim) that serialises as {"exp": ..} under the key
+    //      "lease" is one more custom claim: the default exp / iat / nbf are untouched
+    if prop == "C13" {
+        let mut acc = Acc::default();
+        for p in [Proto::V4L, Proto::V2L, Proto::V4P] {
+            let key = crate::domains::key_pool(p)[0].clone();
+            let t0 = clks[0];
+            crate::adapter::set_clock(Some(time::OffsetDateTime::from_unix_timestamp_nanos(t0).unwrap()));
+            for ack in [false, true] {
+                let mut ops = vec![crate::adapter::BOp::Claim(crate::adapter::ClaimSpec { key: "lease".into(), value: json!("2031-01-01T00:00:00Z"), form: crate::adapter::Form::ForeignOneField })];
+                if ack {
+                    ops.push(crate::adapter::BOp::Ack);
+                }
+                ops.push(crate::adapter::BOp::Build);
+                let (ev, _) = crate::adapter::with_rng_script(vec![vec![2u8; 32]], || crate::adapter::build_history(p, crate::adapter::Layer::Prelude, &key.sk, &ops));
+                acc.executions += 1;
+                let payload = match ev.last() {
+                    Some(crate::adapter::BEvent::Built(crate::adapter::Out::Ok(t))) => crate::adapter::core_present(p, &key.pk, t, None, None).ok().cloned(),
+                    _ => None,
+                };
+                let v: Value = payload.as_deref().and_then(|s| serde_json::from_str(s).ok()).unwrap_or(Value::Null);
+                let inst = |k: &str| v[k].as_str().and_then(crate::rfc3339::parse).map(|(_, t)| t);
+                let defaults_ok = inst("iat") == Some(t0) && inst("nbf") == Some(t0) && if ack { v.get("exp").is_none() } else { inst("exp") == Some(t0 + 3600 * 1_000_000_000) };
+                let lease_ok = v["lease"] == json!({"exp": "2031-01-01T00:00:00Z"});
+                if defaults_ok && lease_ok {
+                    acc.controls_ok += 1;
+                } else {
+                    acc.violate(
+                        format!("C13|{}|foreign-claim|{}", p.name(), if !defaults_ok { "default-claims-disturbed" } else { "claim-lost" }),
+                        format!("an application-defined claim `lease` serialising as {{\"exp\": ..}}{}: payload {}", if ack { " + acknowledgement" } else { "" }, v),
+                        json!({"near_miss": ["lease", "foreign"]}),
+                    );
+                }
+            }
+            crate::adapter::freeze_default_clock();
+        }
+        all.merge(acc);
+    }
+    // ---- pairs of keys that differ by case, white space or Unicode normalisation are different keys
+    if prop == "C17" {
+        let near: [&str; 9] = ["role", "Role", "ROLE", "role ", " role", "role\n", "r\u{00f4}le", "ro\u{0302}le", "rol"];
+        let key = crate::domains::key_pool(Proto::V4L)[0].clone();
+        let mut acc = Acc::default();
+        crate::adapter::freeze_default_clock();
+        for a in near {
+            for b in near {
+                let ops = vec![
+                    crate::adapter::BOp::Claim(crate::adapter::ClaimSpec::auto(a, json!("first"))),
+                    crate::adapter::BOp::Claim(crate::adapter::ClaimSpec::auto(b, json!("second"))),
+                    crate::adapter::BOp::Build,
+                ];
+                let (ev, _) = crate::adapter::with_rng_script(vec![vec![1u8; 32]], || crate::adapter::build_history(Proto::V4L, crate::adapter::Layer::Prelude, &key.sk, &ops));
+                acc.executions += 1;
+                acc.see(&(a, b));
+                let built_ok = matches!(ev.last(), Some(crate::adapter::BEvent::Built(crate::adapter::Out::Ok(_))));
+                let is_dup_err = matches!(ev.last(), Some(crate::adapter::BEvent::Built(crate::adapter::Out::Err(crate::adapter::ErrClass::Dup(_)))));
+                let fine = if a == b { is_dup_err } else { built_ok };
+                if fine {
+                    acc.controls_ok += 1;
+                } else {
+                    acc.violate(
+                        format!("C17|v4.local|near-miss-keys|{}", if a == b { "repeat-not-refused" } else { "distinct-keys-conflated" }),
+                        format!("set_claim({:?}); set_claim({:?}); build -> {:?}", a, b, ev.last()),
+                        json!({"near_miss": [a, b]}),
+                    );
+                }
+            }
+        }
+        all.merge(acc);
+    }
+
+    all.executions = REPLAYS.load(Ordering::Relaxed) + all.executions;
     all.impl_calls = all.executions;
     all.controls_ok = *all.hist.get("sequence:conforms").unwrap_or(&0);
     let exhaustive = true;
@@ -167,6 +285,10 @@ pub fn run(prop: &'static str, tier: &str) -> i32 {
 }
 
 pub fn replay(prop: &'static str, case: &Value) -> i32 {
+    if case.get("near_miss").is_some() || case["builder_case"]["t0_ns"] == "real" {
+        println!("this finding comes from the near-miss-key / free-running pass: re-run `./check {} quick`", prop);
+        return 2;
+    }
     let Ok(bc) = serde_json::from_value::<BuilderCase>(case["builder_case"].clone()) else { crate::report::machinery_error("replay file has no builder_case") };
     let t0: i128 = bc.t0_ns.parse().unwrap_or(0);
     let v1 = replay_and_judge(bc.proto, t0, &bc.path);
